@@ -16,13 +16,28 @@ Clauses of the property and where they are proved
   carried state (mask, connectivity, labels, …) ........ shape_carried, img_carried, xf_wrong_length_fixed (class)
   masked layout, zero elsewhere ........................ masked_vector_layout, masked_zero_elsewhere
   alignment target re-synced ........................... alignment_target_resynced
+  every vector of n_parameters entries is accepted ..... shape_right_length_accepted, img_right_length_accepted,
+                                                          xf_right_length_accepted
   wrong length: raises or well formed .................. shape_wrong_length_fixed, img_from_vector_wellformed,
                                                           xf_wrong_length_fixed (+ three coded refutations)
   from_vector never changes the receiver ............... from_vector_pure_heap + expected_rows_pure
   quaternions .......................................... quat_matrix_orthogonal, K_of_rotation, rotation_as_from,
                                                           rotation_from_as
+  … over histories of calls ............................ from_vector_program_pure (any sequence of from_vector calls),
+                                                          from_vector_inplace_local / from_vector_inplace_effect
+                                                          (the deprecated mutator changes its receiver only)
+  from_vector = copy() + in-place update ............... shape_inplace_agrees, xf_inplace_agrees, image_inplace_agrees;
+                                                          in place: img_fvi_as_from, img_fvi_carried,
+                                                          masked_fvi_keeps_outside, boolean_inplace_not_coerced,
+                                                          failed_inplace_keeps_receiver (+ the AlignmentAffine witness)
+  dimensions that are not vectorizable ................. similarity3d_not_vectorizable, rotation2d_not_vectorizable
+  boundary images ...................................... masked_all_false (+ examples: 1-D, 3-D, all-false BooleanImage)
+  options: from_vector(v, n_channels=k), keep_channels . fromVecN_eq_blank, fromVecN_self, fromVecN_spec, asVecKeep_flatten
+  dtype of the result follows the vector ............... from_vector_dtype, as_from_dtype, masked_inplace_dtype
+  the eigh contract is satisfiable everywhere .......... eigh_contract_satisfiable
 -/
 import MenpoModel.Lemmas.C05Lists
+import MenpoModel.Lemmas.C05Heap
 import Mathlib.Tactic.Ring
 import Mathlib.Tactic.Linarith
 import Mathlib.Tactic.LinearCombination
@@ -1407,40 +1422,798 @@ theorem rotation_from_as (V : Variant) (eig : Mat → Vec) (x x' : Xf) (w a b c 
 buffers the resolved `copy` makes fresh -/
 theorem expected_rows_pure : ∀ r ∈ expectedDispatch, rowPure r = true := by decide
 
-theorem heapUpdate_other (writes : List Buf) (new : Buf → List Rat) (H' : Heap) (c : Obj) (a : Nat)
-    (h : ∀ w ∈ writes, c w ≠ a) : (heapUpdate writes new H' c).cell a = H'.cell a := by
-  induction writes generalizing H' with
-  | nil => rfl
-  | cons w ws ih =>
-    have h1 := ih (heapWrite H' (c w) (new w)) (fun x hx => h x (List.mem_cons_of_mem _ hx))
-    simp only [heapUpdate, List.foldl_cons] at h1 ⊢
-    rw [h1]
-    have : a ≠ c w := fun e => h w (by simp) e.symm
-    simp [heapWrite, this]
-
 /-- PROPERTY (`from_vector` never changes the object it is called on), heap form: `copy()` as resolved for
-the class followed by in-place writes through the copy's references leaves every buffer of the receiver as
-it was, provided every buffer written in place is fresh in the copy (`rowPure`, discharged for every class
-by `expected_rows_pure` / `GenProps.dispatch_pure`); and the copy starts out equal to the receiver -/
-theorem from_vector_pure_heap (fresh : Buf → Bool) (writes : List Buf) (hw : writes.all fresh = true)
+the class, then the attribute rebindings, then the in-place writes through the copy's references leave every
+buffer of the receiver as it was, provided every buffer written in place is fresh in the copy (`rowPure`,
+discharged for every class by `expected_rows_pure` / `GenProps.dispatch_pure`; which buffers are written,
+rebound and fresh is measured on the live objects, `GenProps.effects_ok`); and the copy starts out equal to
+the receiver -/
+theorem from_vector_pure_heap (fresh : Buf → Bool) (rebinds writes : List Buf) (hw : writes.all fresh = true)
     (H : Heap) (o : Obj) (hv : ∀ b, o b < H.next) (new : Buf → List Rat) :
-    (∀ b, (heapUpdate writes new (heapCopy fresh H o).1 (heapCopy fresh H o).2).cell (o b) = H.cell (o b)) ∧
-    (∀ b, (heapCopy fresh H o).1.cell ((heapCopy fresh H o).2 b) = H.cell (o b)) := by
+    let C := heapCopy fresh H o
+    let R := heapRebind rebinds new C.1 C.2
+    (∀ b, (heapUpdate writes new R.1 R.2).cell (o b) = H.cell (o b)) ∧
+    (∀ b, C.1.cell (C.2 b) = H.cell (o b)) := by
+  intro C R
   constructor
   · intro b
+    have hb := hv b
     rw [heapUpdate_other]
-    · simp [heapCopy, hv b]
+    · rw [heapRebind_old _ _ _ _ _ (by simp [C]; omega)]
+      exact heapCopy_old _ _ _ _ hb
     · intro w hwm
       have hf : fresh w = true := (List.all_eq_true.mp hw) w hwm
-      have := hv b
-      simp only [heapCopy, hf, if_true]
-      omega
-  · intro b
-    cases hf : fresh b
-    · simp [heapCopy, hf, hv b]
-    · have hge : ¬ (H.next + bufIndex b < H.next) := by omega
-      simp only [heapCopy, hf, if_true, hge, if_false]
-      cases b <;> simp [bufIndex]
+      simp only [R, C, heapRebind_ref, heapCopy_ref, heapCopy_next, hf, if_true]
+      split <;> omega
+  · exact heapCopy_val fresh H o hv
+
+/-! ## programs of `from_vector` / `from_vector_inplace` calls (history and aliasing) -/
+
+def stepPureB (s : Step) : Bool := !s.inplace && s.writes.all (fun b => s.fresh b || s.rebinds.contains b)
+
+theorem stepPureB_iff (s : Step) (h : stepPureB s = true) : s.Pure := by
+  simp only [stepPureB, Bool.and_eq_true, Bool.not_eq_true', List.all_eq_true, Bool.or_eq_true] at h
+  exact ⟨h.1, h.2⟩
+
+def stepAdmB (Wr : Buf → Bool) (s : Step) : Bool :=
+  s.writes.all Wr && (s.inplace || allBufs.all (fun b => !Wr b || s.fresh b))
+
+theorem stepAdmB_iff (Wr : Buf → Bool) (s : Step) (h : stepAdmB Wr s = true) : s.Adm Wr := by
+  simp only [stepAdmB, Bool.and_eq_true, List.all_eq_true, Bool.or_eq_true, Bool.not_eq_true'] at h
+  refine ⟨h.1, fun hi b hw => ?_⟩
+  rcases h.2 with h2 | h2
+  · rw [hi] at h2; cases h2
+  · rcases h2 b (by cases b <;> simp [allBufs]) with h3 | h3
+    · rw [hw] at h3; cases h3
+    · exact h3
+
+theorem stepOfRow_flags (r : Row) (recv : Nat) (ip : Bool) (new : Buf → List Rat) :
+    stepPureB (stepOfRow r recv ip new) = stepPureB (stepOfRow r 0 ip (fun _ => [])) ∧
+    stepAdmB writable (stepOfRow r recv ip new) = stepAdmB writable (stepOfRow r 0 ip (fun _ => [])) := by
+  unfold stepOfRow; split <;> exact ⟨rfl, rfl⟩
+
+theorem expected_steps_ok : ∀ r ∈ expectedDispatch,
+    stepPureB (stepOfRow r 0 false (fun _ => [])) = true ∧
+    stepAdmB writable (stepOfRow r 0 false (fun _ => [])) = true ∧
+    stepAdmB writable (stepOfRow r 0 true (fun _ => [])) = true := by decide
+
+
+/-- a call: (row of the receiver's class, index of the receiver, from_vector_inplace?, the new contents) -/
+abbrev Call := Row × Nat × Bool × (Buf → List Rat)
+
+def Call.step (c : Call) : Step := stepOfRow c.1 c.2.1 c.2.2.1 c.2.2.2
+
+theorem stepOfRow_inplace (r : Row) (recv : Nat) (ip : Bool) (new : Buf → List Rat) :
+    (stepOfRow r recv ip new).inplace = ip ∧ (stepOfRow r recv ip new).recv = recv := by
+  unfold stepOfRow; split
+  · rename_i h; simp only [Bool.and_eq_true, Bool.not_eq_true'] at h; exact ⟨h.2.symm, rfl⟩
+  · exact ⟨rfl, rfl⟩
+
+theorem call_pure (c : Call) (hr : c.1 ∈ expectedDispatch) (hi : c.2.2.1 = false) : c.step.Pure := by
+  apply stepPureB_iff
+  obtain ⟨r, recv, ip, new⟩ := c
+  simp only at hr hi; subst hi
+  rw [Call.step, (stepOfRow_flags r recv false new).1]
+  exact (expected_steps_ok r hr).1
+
+theorem call_adm (c : Call) (hr : c.1 ∈ expectedDispatch) : c.step.Adm writable := by
+  apply stepAdmB_iff
+  obtain ⟨r, recv, ip, new⟩ := c
+  simp only at hr
+  rw [Call.step, (stepOfRow_flags r recv ip new).2]
+  cases ip
+  · exact (expected_steps_ok r hr).2.1
+  · exact (expected_steps_ok r hr).2.2
+
+/-- PROPERTY (`from_vector` never changes the object it is called on), over histories: whatever sequence of
+`from_vector` calls is made — on objects of any of the 23 classes, on the original objects or on results of
+earlier calls, with any vectors — every object that existed before still refers to the same arrays and
+holds the same values afterwards; the only effect is that new objects appear -/
+theorem from_vector_program_pure (W : World) (hv : W.Valid) (calls : List Call)
+    (hc : ∀ c ∈ calls, c.1 ∈ expectedDispatch ∧ c.2.2.1 = false) :
+    (∀ i, i < W.n → (W.run (calls.map Call.step)).objs i = W.objs i ∧
+        ∀ b, (W.run (calls.map Call.step)).val i b = W.val i b) ∧
+    W.n ≤ (W.run (calls.map Call.step)).n := by
+  have hp : ∀ s ∈ calls.map Call.step, s.Pure := by
+    intro s hs
+    obtain ⟨c, hcm, rfl⟩ := List.mem_map.mp hs
+    exact call_pure c (hc c hcm).1 (hc c hcm).2
+  obtain ⟨h1, h2, h3⟩ := run_pure_frame W _ hp
+  refine ⟨fun i hi => ⟨h2 i hi, fun b => ?_⟩, h3⟩
+  unfold World.val
+  rw [h2 i hi, h1 _ (hv i hi b)]
+
+/-- PROPERTY (the deprecated mutator `from_vector_inplace` changes its receiver and nothing else), over
+histories: in any sequence of `from_vector` and `from_vector_inplace` calls on a population in which no
+writable buffer (`pixels`, `h_matrix`: the only ones some `_from_vector_inplace` writes in place) is shared,
+an object that is never itself the receiver of an in-place call keeps its value — even when the in-place
+calls hit its own copies or `from_vector` results, which share its source / target arrays — and the
+population stays free of shared writable buffers (so the statement applies again) -/
+theorem from_vector_inplace_local (W : World) (hv : W.Valid) (ho : W.Owns writable) (calls : List Call)
+    (hc : ∀ c ∈ calls, c.1 ∈ expectedDispatch) (j : Nat) (hj : j < W.n)
+    (hne : ∀ c ∈ calls, c.2.2.1 = true → j ≠ c.2.1) :
+    (∀ b, (W.run (calls.map Call.step)).val j b = W.val j b) ∧
+    (W.run (calls.map Call.step)).Owns writable ∧ (W.run (calls.map Call.step)).Valid := by
+  have ha : ∀ s ∈ calls.map Call.step, s.Adm writable := by
+    intro s hs
+    obtain ⟨c, hcm, rfl⟩ := List.mem_map.mp hs
+    exact call_adm c (hc c hcm)
+  have hn : ∀ s ∈ calls.map Call.step, s.inplace = true → j ≠ s.recv := by
+    intro s hs hi
+    obtain ⟨c, hcm, rfl⟩ := List.mem_map.mp hs
+    obtain ⟨h1, h2⟩ := stepOfRow_inplace c.1 c.2.1 c.2.2.1 c.2.2.2
+    simp only [Call.step] at hi ⊢
+    rw [h2]; rw [h1] at hi
+    exact hne c hcm hi
+  refine ⟨fun b => (run_adm_frame writable W _ hv ho ha j hj hn b).1, ?_, ?_⟩
+  · exact (run_adm_frame writable W _ hv ho ha j hj hn .points).2.1
+  · exact (run_adm_frame writable W _ hv ho ha j hj hn .points).2.2
+
+/-- PROPERTY (what `from_vector_inplace` does to its receiver): the buffers the class's
+`_from_vector_inplace` writes or rebinds hold the new contents afterwards, every other buffer of the receiver
+(mask, source, connectivity, landmarks, …) what it held before -/
+theorem from_vector_inplace_effect (W : World) (hv : W.Valid) (ho : W.Owns writable) (r : Row)
+    (hr : r ∈ expectedDispatch) (recv : Nat) (hlt : recv < W.n) (new : Buf → List Rat) (b : Buf) :
+    (W.exec (stepOfRow r recv true new)).val recv b =
+      if b ∈ (writesInto r.fvi).getD allBufs ∨ (rowRebinds r).contains b = true then new b else W.val recv b := by
+  have ha := call_adm (r, recv, true, new) hr
+  have h := exec_inplace_effect writable W (stepOfRow r recv true new) hv ho ha
+    (stepOfRow_inplace r recv true new).1 (by rw [(stepOfRow_inplace r recv true new).2]; exact hlt) b
+  rw [(stepOfRow_inplace r recv true new).2] at h
+  rw [h]
+  unfold stepOfRow
+  simp
+
+/-! ## `from_vector_inplace` at the value level -/
+
+/-- PROPERTY (shapes): `from_vector(v)` is `copy()` followed by the in-place update — for every shape class,
+except that the coded `TexturedTriMesh.from_vector` (a constructor rebuild) loses the landmarks which the
+in-place update keeps -/
+theorem shape_inplace_agrees (V : Variant) (s : Shape) (v : Vec) (hc : isShapeCls s.cls = true)
+    (hk : V.texturedKeepsLms = true ∨ s.cls ≠ .TexturedTriMesh ∨ s.lms = []) :
+    s.fromVec V v = s.fvi V v := by
+  have hf : s.fvi V v = pointCloudFvi V s v := by
+    obtain ⟨cls, d, pts, nv, tris, ex, lms⟩ := s
+    cases cls <;> first | rfl | (simp [isShapeCls, isGraphCls, isMeshCls] at hc)
+  rw [hf, shape_fromVec_eq V s v hc]
+  split
+  · rename_i ht
+    unfold texturedFromVector pointCloudFvi
+    rcases hk with hk | hk | hk
+    · simp [hk]
+    · exact absurd ht hk
+    · simp [hk]
+  · rfl
+
+/-- PROPERTY (transforms): `Homogeneous.from_vector(v)` is `copy()` followed by the in-place update, for all
+twelve classes -/
+theorem xf_inplace_agrees (V : Variant) (x : Xf) (v : Vec) (hc : isXfCls x.cls = true) :
+    x.fromVec V v = x.fvi V v := by
+  obtain ⟨cls, hm, s, t⟩ := x
+  cases cls <;> first | rfl | (simp [isXfCls] at hc)
+
+theorem img_fvi_eq (x : Img) (v : Vec) (hc : isImgCls x.cls = true) :
+    x.fvi v = if x.cls = .MaskedImage then maskedFvi x v else imageFvi x v := by
+  obtain ⟨cls, shape, chans, mask, lms⟩ := x
+  cases cls <;> first | rfl | (simp [isImgCls] at hc)
+
+/-- PROPERTY (Image): `from_vector(v)` and the in-place update compute the same image -/
+theorem image_inplace_agrees (x : Img) (v : Vec) (hc : x.cls = .Image) : x.fromVec v = x.fvi v := by
+  rw [img_fromVec_eq x v (by simp [isImgCls, hc]), img_fvi_eq x v (by simp [isImgCls, hc])]
+  simp [hc, imageFromVector, imageFvi]
+
+theorem maskedFvi_ok (x x' : Img) (v : Vec) (h : maskedFvi x v = .ok x') :
+    x.nCh ≠ 0 ∧ v.length % x.nCh = 0 ∧
+    ((allTrue x.mask = true ∧ x' = { x with chans := chunks x.nPix x.nCh v } ∧ v.length = x.nCh * x.nPix) ∨
+     (allTrue x.mask = false ∧
+      ((v.length / x.nCh = countTrue x.mask ∧
+          x' = { x with chans := List.zipWith (overlay x.mask) x.chans (chunks (v.length / x.nCh) x.nCh v) }) ∨
+       (v.length / x.nCh ≠ countTrue x.mask ∧ v.length / x.nCh = 1 ∧
+          x' = { x with chans := List.zipWith (overlay x.mask) x.chans (broadcastRows (countTrue x.mask) (chunks (v.length / x.nCh) x.nCh v)) })))) := by
+  unfold maskedFvi at h
+  dsimp only at h
+  repeat' split at h
+  all_goals first | (cases h; done) | skip
+  all_goals (injection h with h; simp_all)
+
+/-- PROPERTY (images, in place): mask, shape, class and landmarks are untouched by the in-place update -/
+theorem img_fvi_carried (x x' : Img) (v : Vec) (hc : isImgCls x.cls = true) (h : x.fvi v = .ok x') :
+    x'.cls = x.cls ∧ x'.shape = x.shape ∧ x'.mask = x.mask ∧ x'.lms = x.lms := by
+  rw [img_fvi_eq x v hc] at h
+  split at h
+  · obtain ⟨_, _, ⟨_, rfl, _⟩ | ⟨_, ⟨_, rfl⟩ | ⟨_, _, rfl⟩⟩⟩ := maskedFvi_ok x x' v h <;> simp
+  · unfold imageFvi at h
+    split at h
+    · injection h with h; subst h; simp
+    · cases h
+
+/-- PROPERTY (images, in place): after `from_vector_inplace(v)` with `n_parameters` entries the receiver's
+`as_vector()` is `v` — all three image classes (a BooleanImage is *not* coerced: see
+`boolean_inplace_not_coerced`) -/
+theorem img_fvi_as_from (x x' : Img) (v : Vec) (hc : isImgCls x.cls = true) (hw : x.wf = true)
+    (hn : v.length = x.nParams) (h : x.fvi v = .ok x') : x'.asVec = v := by
+  obtain ⟨hcar, hsh, hmask, _⟩ := img_fvi_carried x x' v hc h
+  have hc' : isImgCls x'.cls = true := by rw [hcar]; exact hc
+  obtain ⟨h1, h2, _⟩ := (img_wf_iff x).1 hw
+  obtain ⟨_, hnp⟩ := img_length_eq_nparams x hc hw
+  rw [img_asVec_eq x' hc', hcar]
+  rw [img_fvi_eq x v hc] at h
+  split at h
+  · rename_i hm
+    simp only [hm, if_true] at hnp ⊢
+    have hml : x.mask.length = x.nPix := h2 hm
+    obtain ⟨hn0, hmod, hcases⟩ := maskedFvi_ok x x' v h
+    have hdiv : v.length = x.nCh * (v.length / x.nCh) := by
+      rw [Nat.mul_comm]; exact (Nat.div_mul_cancel (Nat.dvd_of_mod_eq_zero hmod)).symm
+    rcases hcases with ⟨ht, rfl, hl⟩ | ⟨ht, ⟨hk, rfl⟩ | ⟨hk, _, _⟩⟩
+    · simp only [maskedAsVec, ht, if_true]
+      exact flatten_chunks _ _ _ (by rw [hl])
+    · simp only [maskedAsVec, ht, Bool.false_eq_true, if_false]
+      have hrows := chunks_row_length (v.length / x.nCh) x.nCh v hdiv
+      have hcl : (chunks (v.length / x.nCh) x.nCh v).length = x.chans.length := chunks_length _ _ _
+      have : List.map (fun c => maskFilter c x.mask)
+            (List.zipWith (overlay x.mask) x.chans (chunks (v.length / x.nCh) x.nCh v))
+          = chunks (v.length / x.nCh) x.nCh v := by
+        apply List.ext_getElem?
+        intro i
+        simp only [List.getElem?_map, List.getElem?_zipWith]
+        cases hci : x.chans[i]? with
+        | none =>
+          have : (chunks (v.length / x.nCh) x.nCh v)[i]? = none := by
+            rw [List.getElem?_eq_none_iff] at hci ⊢; omega
+          simp [this]
+        | some c =>
+          cases hri : (chunks (v.length / x.nCh) x.nCh v)[i]? with
+          | none => simp
+          | some r =>
+            simp only [Option.map_some, Option.some.injEq]
+            exact maskFilter_overlay x.mask c r (by rw [h1 c (List.mem_of_getElem? hci), hml])
+              (by rw [hrows r (List.mem_of_getElem? hri), hk])
+      rw [this]
+      exact flatten_chunks _ _ _ hdiv
+    · exfalso
+      apply hk
+      rw [hn, hnp, Nat.mul_comm]
+      exact Nat.mul_div_cancel _ (Nat.pos_of_ne_zero hn0)
+  · rename_i hm
+    simp only [hm, if_false, imageAsVec]
+    unfold imageFvi at h
+    split at h
+    · rename_i hl
+      injection h with h; subst h
+      exact flatten_chunks _ _ _ (by rw [hl])
+    · cases h
+
+/-- PROPERTY (masked images, in place — the contrast with `masked_zero_elsewhere`): the in-place update
+assigns under the mask only; a pixel outside the mask keeps the value it had, in every channel -/
+theorem masked_fvi_keeps_outside (x x' : Img) (v : Vec) (hm : x.cls = .MaskedImage) (hw : x.wf = true)
+    (hn : v.length = x.nParams) (hnf : allTrue x.mask = false)
+    (h : x.fvi v = .ok x') (p : Nat) (hp : x.mask[p]? = some false) (c : Nat) :
+    (x'.chans[c]?).bind (fun ch => ch[p]?) = (x.chans[c]?).bind (fun ch => ch[p]?) := by
+  have hc : isImgCls x.cls = true := by simp [isImgCls, hm]
+  obtain ⟨h1, h2, _⟩ := (img_wf_iff x).1 hw
+  have hml : x.mask.length = x.nPix := h2 hm
+  obtain ⟨_, hnp⟩ := img_length_eq_nparams x hc hw
+  simp only [hm, if_true] at hnp
+  rw [img_fvi_eq x v hc, if_pos hm] at h
+  obtain ⟨hn0, hmod, hcases⟩ := maskedFvi_ok x x' v h
+  rcases hcases with ⟨ht, _, _⟩ | ⟨_, ⟨hk, rfl⟩ | ⟨hk, _, _⟩⟩
+  · rw [ht] at hnf; cases hnf
+  · have hcl : (chunks (v.length / x.nCh) x.nCh v).length = x.chans.length := chunks_length _ _ _
+    simp only [List.getElem?_zipWith]
+    cases hci : x.chans[c]? with
+    | none => simp
+    | some ch =>
+      have hlt : c < (chunks (v.length / x.nCh) x.nCh v).length := by
+        rw [hcl]; exact (List.getElem?_eq_some_iff.mp hci).1
+      obtain ⟨r, hr⟩ : ∃ r, (chunks (v.length / x.nCh) x.nCh v)[c]? = some r :=
+        ⟨_, List.getElem?_eq_getElem hlt⟩
+      simp only [hr, Option.bind_some]
+      exact overlay_false x.mask ch r p (by rw [h1 ch (List.mem_of_getElem? hci), hml]) hp
+  · exfalso
+    apply hk
+    rw [hn, hnp, Nat.mul_comm]
+    exact Nat.mul_div_cancel _ (Nat.pos_of_ne_zero hn0)
+
+/-- `BooleanImage` inherits `Image._from_vector_inplace`, which stores the reshaped vector as it is: updated in
+place with non-boolean values a BooleanImage holds non-boolean pixels, whereas `BooleanImage.from_vector`
+coerces (witness; the deprecated mutator is outside the property's `from_vector` clause) -/
+theorem boolean_inplace_not_coerced :
+    ∃ (x xi xf : Img) (v : Vec), x.cls = .BooleanImage ∧ x.wf = true ∧ v.length = x.nParams ∧
+      x.fvi v = .ok xi ∧ xi.wf = false ∧ x.fromVec v = .ok xf ∧ xf.wf = true :=
+  ⟨⟨.BooleanImage, [2], [[1, 0]], [], []⟩, ⟨.BooleanImage, [2], [[3, 0]], [], []⟩,
+   ⟨.BooleanImage, [2], [[1, 0]], [], []⟩, [3, 0], rfl, by decide +kernel, by decide +kernel, by decide +kernel,
+   by decide +kernel, by decide +kernel, by decide +kernel⟩
+
+/-- PROPERTY (a failed `from_vector_inplace` leaves the receiver as it was) — for every transform class but
+AlignmentAffine: each supplier raises before it touches the object -/
+theorem failed_inplace_keeps_receiver (x : Xf) (v : Vec)
+    (hne : x.cls ≠ .AlignmentAffine) : x.afterFailedFvi v = x := by
+  obtain ⟨cls, hm, s, t⟩ := x
+  cases cls <;> first | rfl | (exfalso; exact hne rfl)
+
+/-- … and AlignmentAffine is the exception (witness): `_set_h_matrix` stores the matrix of the other dimension
+before the re-sync of the target raises, so the failed update leaves a 2-D alignment holding a 4×4 matrix.
+`from_vector` is not affected (the half-updated object is its private copy). -/
+theorem alignment_affine_failed_inplace_half_updated :
+    ∃ (x : Xf) (v : Vec) (e : Err), x.cls = .AlignmentAffine ∧ x.wf = true ∧ x.fvi fixed v = .error e ∧
+      x.fromVec fixed v = .error e ∧ (x.afterFailedFvi v).h.length = 4 ∧ x.h.length = 3 :=
+  ⟨⟨.AlignmentAffine, [[1, 0, 2], [0, 1, 3], [0, 0, 1]], [[0, 0], [1, 0], [0, 1]], [[2, 3], [3, 3], [2, 4]]⟩,
+   [1, 2, 3, 4, 5, 6, 7, 8, 9, 10, 11, 12], .value, rfl, by decide +kernel, by decide +kernel, by decide +kernel,
+   by decide +kernel, rfl⟩
+
+/-! ## every vector of `n_parameters` entries is accepted -/
+
+/-- PROPERTY (shapes): `from_vector` accepts every vector of `n_parameters` entries -/
+theorem shape_right_length_accepted (V : Variant) (s : Shape) (v : Vec) (hc : isShapeCls s.cls = true)
+    (hw : s.wf = true) (hn : v.length = s.nParams) : ∃ s', s.fromVec V v = .ok s' := by
+  simp only [Shape.wf, Bool.and_eq_true, decide_eq_true_eq, beq_iff_eq] at hw
+  obtain ⟨⟨⟨hd, hm⟩, _⟩, _⟩ := hw
+  have hd' : ¬ s.d = 0 := by omega
+  have hl : v.length = s.points.length := hn
+  rw [shape_fromVec_eq V s v hc]
+  unfold texturedFromVector pointCloudFvi
+  split <;> simp [hl, hm]
+
+theorem countTrue_allTrue (m : List Bool) (h : allTrue m = true) : countTrue m = m.length := by
+  induction m with
+  | nil => rfl
+  | cons b bs ih =>
+    simp only [allTrue, List.all_cons, Bool.and_eq_true, id] at h
+    obtain ⟨hb, hbs⟩ := h
+    subst hb
+    simp [countTrue, ih (by simpa [allTrue] using hbs)]; omega
+
+/-- PROPERTY (images): `from_vector` accepts every vector of `n_parameters` entries -/
+theorem img_right_length_accepted (x : Img) (v : Vec) (hc : isImgCls x.cls = true) (hw : x.wf = true)
+    (hch : x.nCh ≠ 0) (hn : v.length = x.nParams) : ∃ x', x.fromVec v = .ok x' := by
+  obtain ⟨h1, h2, h3⟩ := (img_wf_iff x).1 hw
+  obtain ⟨_, hnp⟩ := img_length_eq_nparams x hc hw
+  rw [hnp] at hn
+  rw [img_fromVec_eq x v hc]
+  split
+  · rename_i hm
+    simp only [hm, if_true] at hn
+    unfold maskedFromVector
+    split
+    · rename_i ht
+      rw [countTrue_allTrue _ ht, h2 hm] at hn
+      simp [hn]
+    · have hmod : v.length % x.nCh = 0 := by rw [hn]; exact Nat.mul_mod_right _ _
+      have hdiv : v.length / x.nCh = countTrue x.mask := by
+        rw [hn]; exact Nat.mul_div_cancel_left _ (Nat.pos_of_ne_zero hch)
+      simp [hmod, hdiv]
+  · rename_i hm
+    simp only [hm, if_false] at hn
+    split
+    · rename_i hb
+      obtain ⟨hone, _⟩ := h3 hb
+      rw [hone, Nat.one_mul] at hn
+      simp [booleanFromVector, hn]
+    · simp [imageFromVector, hn]
+
+theorem applyAff_retarget (h h' src tgt : Mat) (h0 : applyAff h src = .ok tgt) (hl : h'.length = h.length) :
+    ∃ t, applyAff h' src = .ok t := by
+  unfold applyAff at h0 ⊢
+  split at h0
+  · cases h0
+  · rename_i hne
+    split at h0
+    · rename_i hall
+      have hne' : ¬ h' = [] := by
+        intro e; rw [e] at hl; exact hne (List.length_eq_zero_iff.mp hl.symm)
+      rw [if_neg hne', hl, if_pos hall]
+      exact ⟨_, rfl⟩
+    · cases h0
+
+theorem syncTarget_retarget (x : Xf) (h' : Mat) (h0 : applyAff x.h x.src = .ok x.tgt) (hl : h'.length = x.h.length) :
+    ∃ x', syncTarget { x with h := h' } = .ok x' := by
+  obtain ⟨t, ht⟩ := applyAff_retarget x.h h' x.src x.tgt h0 hl
+  unfold syncTarget
+  simp only [ht]
+  exact ⟨_, rfl⟩
+
+/-- PROPERTY (transforms): `from_vector` accepts every vector of `n_parameters` entries — all twelve classes
+(a quaternion too short to normalise is accepted as "no change", as the code does), both variants -/
+theorem xf_right_length_accepted (V : Variant) (x : Xf) (v : Vec) (hc : isXfCls x.cls = true) (hw : x.wf = true)
+    (hn : x.nParams = .ok v.length) : ∃ x', x.fromVec V v = .ok x' := by
+  obtain ⟨hwH, hal⟩ := xf_wf_parts x hw
+  rw [nParams_eq x hc] at hn
+  obtain ⟨cls, hm, s, t⟩ := x
+  cases cls <;> simp [isXfCls] at hc
+  · -- Homogeneous
+    simp only [Except.ok.injEq] at hn
+    simp only [Xf.wfH, Bool.and_eq_true, decide_eq_true_eq, isSquare, beq_iff_eq, List.all_eq_true, true_and] at hwH
+    obtain ⟨h2, hsq⟩ := hwH
+    have hcols : (hm.headD []).length = hm.length := by
+      cases hx : hm with
+      | nil => rw [hx] at h2; simp at h2
+      | cons r0 rs => rw [hx] at hsq; simpa using hsq r0 (by simp)
+    rw [fromVec_Homogeneous]
+    unfold homogFvi; dsimp only
+    rw [hcols, if_pos (by rw [← hn]; exact flatten_length_uniform _ _ hsq)]
+    exact ⟨_, rfl⟩
+  all_goals
+    have haff := wfH_affine _ _ rfl (by simp) hwH
+    rcases affineWF_lit _ haff with ⟨a, b, c, d, e, f, rfl⟩ | ⟨a, b, c, t', d, e, f, u, g, i, j, w, rfl⟩
+  -- Affine 2-D / 3-D
+  · simp at hn
+    match v, hn with
+    | [p1, p2, p3, p4, p5, p6], _ => exact ⟨_, rfl⟩
+  · simp at hn
+    match v, hn with
+    | [p1, p2, p3, p4, p5, p6, p7, p8, p9, p10, p11, p12], _ => exact ⟨_, rfl⟩
+  -- Similarity
+  · simp at hn
+    match v, hn with
+    | [p1, p2, p3, p4], _ => exact ⟨_, rfl⟩
+  · simp at hn
+  -- Translation
+  · simp at hn
+    match v, hn with
+    | [p1, p2], _ => exact ⟨_, rfl⟩
+  · simp at hn
+    match v, hn with
+    | [p1, p2, p3], _ => exact ⟨_, rfl⟩
+  -- UniformScale
+  · simp at hn
+    match v, hn with
+    | [p1], _ => rw [fromVec_UniformScale]; unfold uniformScaleFvi; simp
+  · simp at hn
+    match v, hn with
+    | [p1], _ => rw [fromVec_UniformScale]; unfold uniformScaleFvi; simp
+  -- NonUniformScale
+  · exact ⟨_, rfl⟩
+  · exact ⟨_, rfl⟩
+  -- Rotation
+  · simp at hn
+  · simp at hn
+    match v, hn with
+    | [p1, p2, p3, p4], _ =>
+      rw [fromVec_Rotation]; unfold rotationFvi
+      simp only [List.length_cons, List.length_nil, ne_eq, not_true_eq_false, if_false, Nat.reduceAdd]
+      split
+      · exact ⟨_, rfl⟩
+      · exact ⟨_, rfl⟩
+  -- AlignmentAffine
+  · simp at hn
+    match v, hn with
+    | [p1, p2, p3, p4, p5, p6], _ =>
+      rw [fromVec_AlignmentAffine]
+      exact syncTarget_retarget ⟨.AlignmentAffine, _, s, t⟩ [[1 + p1, p3, p5], [p2, 1 + p4, p6], [0, 0, 1]] (hal rfl) rfl
+  · simp at hn
+    match v, hn with
+    | [p1, p2, p3, p4, p5, p6, p7, p8, p9, p10, p11, p12], _ =>
+      rw [fromVec_AlignmentAffine]
+      exact syncTarget_retarget ⟨.AlignmentAffine, _, s, t⟩
+        [[1 + p1, p4, p7, p10], [p2, 1 + p5, p8, p11], [p3, p6, 1 + p9, p12], [0, 0, 0, 1]] (hal rfl) rfl
+  -- AlignmentSimilarity
+  · simp at hn
+    match v, hn with
+    | [p1, p2, p3, p4], _ =>
+      rw [fromVec_AlignmentSimilarity]
+      exact syncTarget_retarget ⟨.AlignmentSimilarity, _, s, t⟩ [[1 + p1, -p2, p3], [p2, 1 + p1, p4], [0, 0, 1]] (hal rfl) rfl
+  · simp at hn
+  -- AlignmentTranslation
+  · simp at hn
+    match v, hn with
+    | [p1, p2], _ =>
+      rw [fromVec_AlignmentTranslation]
+      exact syncTarget_retarget ⟨.AlignmentTranslation, _, s, t⟩ [[a, b, p1], [d, e, p2], [0, 0, 1]] (hal rfl) rfl
+  · simp at hn
+    match v, hn with
+    | [p1, p2, p3], _ =>
+      rw [fromVec_AlignmentTranslation]
+      exact syncTarget_retarget ⟨.AlignmentTranslation, _, s, t⟩
+        [[a, b, c, p1], [d, e, f, p2], [g, i, j, p3], [0, 0, 0, 1]] (hal rfl) rfl
+  -- AlignmentUniformScale
+  · simp at hn
+    match v, hn with
+    | [p1], _ =>
+      rw [fromVec_AlignmentUniformScale]
+      have : uniformScaleFvi V ⟨.AlignmentUniformScale, [[a, b, c], [d, e, f], [0, 0, 1]], s, t⟩ [p1] =
+          .ok ⟨.AlignmentUniformScale, [[p1, b, c], [d, p1, f], [0, 0, 1]], s, t⟩ := by
+        unfold uniformScaleFvi; simp [fillDiagOne, fillDiagAux, cyc]
+      rw [this]
+      exact syncTarget_retarget ⟨.AlignmentUniformScale, _, s, t⟩ [[p1, b, c], [d, p1, f], [0, 0, 1]] (hal rfl) rfl
+  · simp at hn
+    match v, hn with
+    | [p1], _ =>
+      rw [fromVec_AlignmentUniformScale]
+      have : uniformScaleFvi V ⟨.AlignmentUniformScale, [[a, b, c, t'], [d, e, f, u], [g, i, j, w], [0, 0, 0, 1]], s, t⟩ [p1] =
+          .ok ⟨.AlignmentUniformScale, [[p1, b, c, t'], [d, p1, f, u], [g, i, p1, w], [0, 0, 0, 1]], s, t⟩ := by
+        unfold uniformScaleFvi; simp [fillDiagOne, fillDiagAux, cyc]
+      rw [this]
+      exact syncTarget_retarget ⟨.AlignmentUniformScale, _, s, t⟩
+        [[p1, b, c, t'], [d, p1, f, u], [g, i, p1, w], [0, 0, 0, 1]] (hal rfl) rfl
+  -- AlignmentRotation
+  · simp at hn
+  · simp at hn
+    match v, hn with
+    | [p1, p2, p3, p4], _ =>
+      rw [fromVec_AlignmentRotation]; unfold rotationFvi
+      simp only [List.length_cons, List.length_nil, ne_eq, not_true_eq_false, if_false, Nat.reduceAdd]
+      split
+      · exact ⟨_, rfl⟩
+      · exact syncTarget_retarget ⟨.AlignmentRotation, _, s, t⟩ _ (hal rfl) (by simp [setRotBase, quatMatrix])
+
+/-! ## the dimensions in which a class is not vectorizable: what happens instead -/
+
+/-- PROPERTY (3-D Similarity / AlignmentSimilarity: outside the quantifier, "not vectorizable" is a
+NotImplementedError from `as_vector`, `n_parameters` and — for the 7-parameter vector a 3-D similarity would
+have — `from_vector`; every other length but 4 is a ValueError).  Both variants. -/
+theorem similarity3d_not_vectorizable (V : Variant) (eig : Mat → Vec) (x : Xf) (v : Vec)
+    (hc : x.cls = .Similarity ∨ x.cls = .AlignmentSimilarity) (hw : affineWF x.h = true) (h4 : x.h.length = 4) :
+    x.asVecWith eig = .error .notImpl ∧ x.nParams = .error .notImpl ∧
+    (v.length = 7 → x.fromVec V v = .error .notImpl) ∧
+    (v.length ≠ 4 → v.length ≠ 7 → x.fromVec V v = .error .value) := by
+  obtain ⟨cls, hm, s, t⟩ := x
+  rcases affineWF_lit _ hw with ⟨a, b, c, d, e, f, rfl⟩ | ⟨a, b, c, t', d, e, f, u, g, i, j, w, rfl⟩
+  · simp at h4
+  · have key : ∀ (r : Row) (y : Xf), (v.length = 7 → similarityFvi r y v = .error .notImpl) ∧
+        (v.length ≠ 4 → v.length ≠ 7 → similarityFvi r y v = .error .value) := by
+      intro r y
+      constructor
+      · intro hl
+        match v, hl with
+        | [_, _, _, _, _, _, _], _ => rfl
+      · intro h4' h7
+        unfold similarityFvi
+        split
+        · simp at h4'
+        · simp at h7
+        · rfl
+    rcases hc with hc | hc <;> (simp only at hc; subst hc)
+    · exact ⟨rfl, rfl, fun hl => by rw [fromVec_Similarity]; exact (key _ _).1 hl,
+        fun h4' h7 => by rw [fromVec_Similarity]; exact (key _ _).2 h4' h7⟩
+    · refine ⟨rfl, rfl, fun hl => ?_, fun h4' h7 => ?_⟩
+      · rw [fromVec_AlignmentSimilarity, (key _ _).1 hl]; rfl
+      · rw [fromVec_AlignmentSimilarity, (key _ _).2 h4' h7]; rfl
+
+/-- the remaining length: a 4-vector handed to a 3-D Similarity is read as 2-D parameters — the result is a
+well-formed *2-D* Similarity (witness; 3-D similarities are outside the property's quantifier) -/
+theorem similarity3d_four_params_become_2d :
+    ∃ x x' : Xf, x.cls = .Similarity ∧ x.h.length = 4 ∧ Xf.wfH x.cls x.h = true ∧
+      x.fromVec fixed [1, 2, 3, 4] = .ok x' ∧ x'.h.length = 3 ∧ Xf.wfH x'.cls x'.h = true :=
+  ⟨⟨.Similarity, [[2, 0, 0, 1], [0, 2, 0, 1], [0, 0, 2, 1], [0, 0, 0, 1]], [], []⟩,
+   ⟨.Similarity, [[2, -2, 3], [2, 2, 4], [0, 0, 1]], [], []⟩, rfl, rfl, by decide +kernel, by decide +kernel,
+   rfl, by decide +kernel⟩
+
+/-- PROPERTY (2-D Rotation / AlignmentRotation: not vectorizable): `as_vector`, `n_parameters` and
+`from_vector` with a vector of any length raise NotImplementedError.  Both variants, any eigen-solver. -/
+theorem rotation2d_not_vectorizable (V : Variant) (eig : Mat → Vec) (x : Xf) (v : Vec)
+    (hc : x.cls = .Rotation ∨ x.cls = .AlignmentRotation) (hw : affineWF x.h = true) (h3 : x.h.length = 3) :
+    x.asVecWith eig = .error .notImpl ∧ x.nParams = .error .notImpl ∧ x.fromVec V v = .error .notImpl := by
+  obtain ⟨cls, hm, s, t⟩ := x
+  rcases affineWF_lit _ hw with ⟨a, b, c, d, e, f, rfl⟩ | ⟨a, b, c, t', d, e, f, u, g, i, j, w, rfl⟩
+  · rcases hc with hc | hc <;> (simp only at hc; subst hc) <;> exact ⟨rfl, rfl, rfl⟩
+  · simp at h3
+
+/-! ## boundary images -/
+
+theorem countTrue_zero_scatter (m : List Bool) (h : countTrue m = 0) (xs : List Rat) :
+    scatter (0 : Rat) m xs = List.replicate m.length 0 := by
+  induction m generalizing xs with
+  | nil => rfl
+  | cons b bs ih =>
+    cases b
+    · simp [countTrue] at h
+      simp [scatter, ih h, List.replicate_succ]
+    · simp [countTrue] at h
+
+theorem countTrue_zero_filter {α} (m : List Bool) (h : countTrue m = 0) (c : List α) : maskFilter c m = [] := by
+  induction m generalizing c with
+  | nil => cases c <;> rfl
+  | cons b bs ih =>
+    cases b
+    · simp [countTrue] at h
+      cases c with
+      | nil => rfl
+      | cons x xs => simp [maskFilter, ih h]
+    · simp [countTrue] at h
+
+theorem flatten_nils {α} (l : List (List α)) (h : ∀ r ∈ l, r = []) : l.flatten = [] := by
+  induction l with
+  | nil => rfl
+  | cons r rs ih =>
+    rw [List.flatten_cons, h r (by simp), ih (fun x hx => h x (List.mem_cons_of_mem _ hx))]; rfl
+
+theorem chunks_zero_nil {α} (n : Nat) : ∀ r ∈ chunks 0 n ([] : List α), r = [] := by
+  induction n with
+  | zero => intro r hr; cases hr
+  | succ n ih =>
+    intro r hr
+    simp only [chunks, List.take_nil, List.drop_nil, List.mem_cons] at hr
+    rcases hr with rfl | hr
+    · rfl
+    · exact ih r hr
+
+/-- PROPERTY (MaskedImage whose mask is all false): `n_parameters` is 0, `as_vector()` is empty, and
+`from_vector` of the empty vector is accepted and returns the same mask, shape and landmarks over pixels that
+are zero everywhere — whose `as_vector()` is again empty -/
+theorem masked_all_false (x : Img) (hm : x.cls = .MaskedImage) (hw : x.wf = true) (hch : x.nCh ≠ 0)
+    (hpix : x.nPix ≠ 0) (hf : countTrue x.mask = 0) :
+    x.nParams = 0 ∧ x.asVec = [] ∧
+    ∃ x', x.fromVec [] = .ok x' ∧ x'.mask = x.mask ∧ x'.shape = x.shape ∧ x'.lms = x.lms ∧ x'.wf = true ∧
+      x'.chans = List.replicate x.nCh (List.replicate x.nPix 0) ∧ x'.asVec = [] := by
+  have hc : isImgCls x.cls = true := by simp [isImgCls, hm]
+  obtain ⟨h1, h2, _⟩ := (img_wf_iff x).1 hw
+  have hml : x.mask.length = x.nPix := h2 hm
+  have hav : x.asVec = [] := by
+    rw [img_asVec_eq x hc, if_pos hm,
+      maskedAsVec_uniform x (fun c hcm => by rw [h1 c hcm, hml])]
+    apply flatten_nils
+    intro r hr
+    obtain ⟨c, _, rfl⟩ := List.mem_map.mp hr
+    exact countTrue_zero_filter x.mask hf c
+  have hnt : allTrue x.mask = false := by
+    cases hmk : x.mask with
+    | nil => rw [hmk] at hml; exact absurd hml.symm hpix
+    | cons b bs =>
+      cases b
+      · simp [allTrue]
+      · rw [hmk] at hf; simp [countTrue] at hf
+  have hfv : x.fromVec [] = .ok { x with chans := List.map (scatter 0 x.mask) (chunks 0 x.nCh []) } := by
+    rw [img_fromVec_eq x [] hc, if_pos hm]
+    unfold maskedFromVector
+    simp [hnt, hch, hf]
+  refine ⟨by rw [Img.nParams, hav]; rfl, hav, _, hfv, rfl, rfl, rfl, ?_, ?_, ?_⟩
+  · exact img_from_vector_wellformed x _ [] hc hw hfv
+  · simp only
+    apply List.ext_getElem
+    · simp [chunks_length, Img.nCh]
+    · intro i h1' h2'
+      simp only [List.getElem_map, List.getElem_replicate]
+      rw [countTrue_zero_scatter x.mask hf, hml]
+  · have hw' := img_from_vector_wellformed x _ [] hc hw hfv
+    have := img_as_from x _ [] hc hw (by simp [Img.nParams, hav]) (fun hb => by rw [hm] at hb; cases hb) hfv
+    exact this
+
+/-! ## options of the image entry points -/
+
+theorem blank_facts (x : Img) (k : Nat) :
+    (x.blank k).nCh = k ∧ (x.blank k).nPix = x.nPix ∧ (x.blank k).mask = x.mask ∧ (x.blank k).cls = x.cls ∧
+    (x.blank k).shape = x.shape ∧ (x.blank k).lms = x.lms := by
+  simp [Img.blank, Img.nCh, Img.nPix]
+
+theorem blank_wf (x : Img) (k : Nat) (hw : x.wf = true) (hb : x.cls ≠ .BooleanImage) : (x.blank k).wf = true := by
+  obtain ⟨_, h2, _⟩ := (img_wf_iff x).1 hw
+  rw [img_wf_iff]
+  obtain ⟨_, hp, hm, hc, _, _⟩ := blank_facts x k
+  refine ⟨fun c hcm => ?_, fun hcl => by rw [hm, hp]; exact h2 (hc ▸ hcl), fun hcl => absurd (hc ▸ hcl) hb⟩
+  simp only [Img.blank, List.mem_replicate] at hcm
+  rw [hcm.2, hp]; simp
+
+/-- PROPERTY (`from_vector(v, n_channels=k)`): it is `from_vector(v)` of the same image with `k` blank channels —
+so every `from_vector` theorem (round trip, layout, zero elsewhere, carried state, well-formedness) holds for it
+with `k` in the place of `n_channels` -/
+theorem fromVecN_eq_blank (x : Img) (k : Nat) (v : Vec) (hc : x.cls = .Image ∨ x.cls = .MaskedImage) :
+    x.fromVecN k v = (x.blank k).fromVec v := by
+  obtain ⟨cls, shape, chans, mask, lms⟩ := x
+  rcases hc with hc | hc <;> (simp only at hc; subst hc)
+  · show imageFromVectorN _ k v = imageFromVector _ v
+    have e1 : (Img.blank ⟨.Image, shape, chans, mask, lms⟩ k).nCh = k := (blank_facts _ k).1
+    unfold imageFromVectorN imageFromVector
+    rw [e1]
+    rfl
+  · show maskedFromVectorN _ k v = maskedFromVector _ v
+    have e1 : (Img.blank ⟨.MaskedImage, shape, chans, mask, lms⟩ k).nCh = k := (blank_facts _ k).1
+    unfold maskedFromVectorN maskedFromVector
+    rw [e1]
+    rfl
+
+/-- with `k = n_channels` the option changes nothing -/
+theorem fromVecN_self (x : Img) (v : Vec) (hc : x.cls = .Image ∨ x.cls = .MaskedImage) :
+    x.fromVecN x.nCh v = x.fromVec v := by
+  obtain ⟨cls, shape, chans, mask, lms⟩ := x
+  rcases hc with hc | hc <;> (simp only at hc; subst hc) <;> rfl
+
+/-- PROPERTY (`from_vector(v, n_channels=k)`, spelled out): whatever is accepted is a well-formed image of the
+same class, shape, mask and landmarks with `k` channels, and for `v` of `k * (pixels under the mask)` entries its
+`as_vector()` is `v` -/
+theorem fromVecN_spec (x x' : Img) (k : Nat) (v : Vec) (hc : x.cls = .Image ∨ x.cls = .MaskedImage)
+    (hw : x.wf = true) (h : x.fromVecN k v = .ok x') :
+    x'.wf = true ∧ x'.nCh = k ∧ x'.cls = x.cls ∧ x'.shape = x.shape ∧ x'.mask = x.mask ∧ x'.lms = x.lms ∧
+    (v.length = k * (if x.cls = .MaskedImage then countTrue x.mask else x.nPix) → x'.asVec = v) := by
+  have hb : x.cls ≠ .BooleanImage := by rcases hc with hc | hc <;> rw [hc] <;> simp
+  have hci : isImgCls x.cls = true := by rcases hc with hc | hc <;> simp [isImgCls, hc]
+  rw [fromVecN_eq_blank x k v hc] at h
+  obtain ⟨hn, hp, hm, hcl, hs, hl⟩ := blank_facts x k
+  have hwb := blank_wf x k hw hb
+  have hcb : isImgCls (x.blank k).cls = true := by rw [hcl]; exact hci
+  obtain ⟨c1, c2, c3, c4⟩ := img_carried _ _ _ hcb h
+  have hwf := img_from_vector_wellformed _ _ _ hcb hwb h
+  refine ⟨hwf, ?_, c1.trans hcl, c2.trans hs, c3.trans hm, c4.trans hl, fun hlen => ?_⟩
+  · -- the number of channels
+    rw [img_fromVec_eq _ _ hcb, hcl] at h
+    rcases hc with hc | hc
+    · rw [hc] at h
+      have h' : imageFromVector (x.blank k) v = .ok x' := by simpa using h
+      obtain ⟨rfl, _⟩ := imageFromVector_ok _ _ _ h'
+      show (chunks _ _ v).length = k
+      rw [chunks_length]; exact hn
+    · rw [hc] at h
+      have h' : maskedFromVector (x.blank k) v = .ok x' := by simpa using h
+      rcases maskedFromVector_ok _ _ _ h' with ⟨_, rfl, _⟩ | ⟨_, _, _, ⟨_, rfl⟩ | ⟨_, _, rfl⟩⟩
+      · show (chunks _ _ v).length = k
+        rw [chunks_length]; exact hn
+      · show (List.map _ (chunks _ _ v)).length = k
+        rw [List.length_map, chunks_length]; exact hn
+      · show (List.map _ (chunks _ _ v)).length = k
+        rw [List.length_map, chunks_length]; exact hn
+  · apply img_as_from _ _ _ hcb hwb _ (fun hbb => absurd (hcl ▸ hbb) hb) h
+    obtain ⟨_, hnp⟩ := img_length_eq_nparams _ hcb hwb
+    rw [hnp, hn, hcl, hm, hp, hlen]
+
+/-- PROPERTY (`as_vector(keep_channels=True)`): one row per channel whose concatenation is `as_vector()` -/
+theorem asVecKeep_flatten (x : Img) (hc : isImgCls x.cls = true) :
+    x.asVecKeep.flatten = x.asVec ∧ x.asVecKeep.length = x.nCh := by
+  obtain ⟨cls, shape, chans, mask, lms⟩ := x
+  cases cls <;> simp [isImgCls] at hc
+  · exact ⟨rfl, rfl⟩
+  · unfold Img.asVecKeep Img.asVec
+    simp only [show (rowOf Cls.MaskedImage).asVector = .MaskedImage from rfl]
+    unfold maskedAsVec
+    constructor <;> split <;> simp [Img.nCh]
+  · exact ⟨rfl, rfl⟩
+
+/-! ## dtypes -/
+
+/-- PROPERTY (the result's dtype follows the vector): the coordinate array of every shape class and the pixel
+array of Image and MaskedImage (whatever the mask) have the dtype of the vector handed to `from_vector`,
+whatever the receiver stores; a BooleanImage stays boolean; a Homogeneous matrix takes the vector's dtype, Affine
+and Similarity (and their alignments) build a float64 matrix, the classes that assign into their matrix
+(Translation, the scales, Rotation and their alignments) keep the matrix dtype -/
+theorem from_vector_dtype (c : Cls) (full : Bool) (own vec : Dt) :
+    ((isShapeCls c = true ∨ c = .Image ∨ c = .MaskedImage ∨ c = .Homogeneous) →
+        fromVecDtype (rowOf c) full own vec = vec) ∧
+    (c = .BooleanImage → fromVecDtype (rowOf c) full own vec = .bool) ∧
+    ((c = .Affine ∨ c = .Similarity ∨ c = .AlignmentAffine ∨ c = .AlignmentSimilarity) →
+        fromVecDtype (rowOf c) full own vec = .float64) ∧
+    ((c = .Translation ∨ c = .UniformScale ∨ c = .NonUniformScale ∨ c = .Rotation ∨ c = .AlignmentTranslation ∨
+      c = .AlignmentUniformScale ∨ c = .AlignmentRotation) → fromVecDtype (rowOf c) full own vec = own) := by
+  cases c <;> simp [isShapeCls, isGraphCls, isMeshCls]
+  all_goals (try rfl)
+
+/-- PROPERTY (`from_vector(v).as_vector()` returns `v`, dtype included): for the shape and image classes the
+vector read back has the dtype of the vector put in (a boolean one for BooleanImage) -/
+theorem as_from_dtype (c : Cls) (full : Bool) (own vec : Dt)
+    (hc : isShapeCls c = true ∨ c = .Image ∨ c = .MaskedImage ∨ c = .Homogeneous ∨ (c = .BooleanImage ∧ vec = .bool)) :
+    asVecDtype (rowOf c) (fromVecDtype (rowOf c) full own vec) = vec := by
+  cases c <;> simp [isShapeCls, isGraphCls, isMeshCls] at hc <;> first | rfl | (subst hc; rfl)
+
+/-- the in-place update differs exactly at a MaskedImage whose mask is not all true: the assignment
+`pixels[..., mask] = rows` casts to the dtype the image has, whereas `from_vector` allocates the canvas with the
+vector's dtype -/
+theorem masked_inplace_dtype (own vec : Dt) :
+    fviDtype (rowOf .MaskedImage).fvi false own vec = own ∧ fviDtype (rowOf .MaskedImage).fvi true own vec = vec ∧
+    fromVecDtype (rowOf .MaskedImage) false own vec = vec := ⟨rfl, rfl, rfl⟩
+
+/-! ## the `eigh` contract is satisfiable at every unit quaternion -/
+
+/-- for every unit quaternion `q = (w, a, b, c)` the vector `(a, b, c, w)` meets the `eigh` contract for `K(q)`
+with eigenvalue 1 (Cauchy–Schwarz bounds every Rayleigh quotient by 1): `rotation_as_from` and
+`rotation_from_as` are not vacuous for any rotation -/
+theorem eigh_contract_satisfiable (w a b c : Rat) (hu : w * w + a * a + b * b + c * c = 1) :
+    EighContract (fun _ => [a, b, c, w]) (Kq w a b c) 1 a b c w where
+  out := rfl
+  unit := by linear_combination hu
+  eigen := by
+    simp only [Kq, List.map, dot, List.cons.injEq, and_true]
+    refine ⟨?_, ?_, ?_, ?_⟩
+    · linear_combination (4 * a / 3) * hu
+    · linear_combination (4 * b / 3) * hu
+    · linear_combination (4 * c / 3) * hu
+    · linear_combination (4 * w / 3) * hu
+  top := by
+    intro u0 u1 u2 u3 huu
+    simp only [Kq, List.map, dot]
+    have h1 : (a * a + b * b + c * c + w * w) * (u0 * u0 + u1 * u1 + u2 * u2 + u3 * u3) = 1 := by
+      rw [huu, show a * a + b * b + c * c + w * w = 1 by linear_combination hu]; norm_num
+    have cs : (a * u0 + b * u1 + c * u2 + w * u3) * (a * u0 + b * u1 + c * u2 + w * u3) ≤ 1 := by
+      nlinarith [sq_nonneg (a * u1 - b * u0), sq_nonneg (a * u2 - c * u0), sq_nonneg (a * u3 - w * u0),
+        sq_nonneg (b * u2 - c * u1), sq_nonneg (b * u3 - w * u1), sq_nonneg (c * u3 - w * u2), h1]
+    nlinarith [cs, huu]
 
 /-! ## non-vacuity: every hypothesis set above is satisfiable on a concrete, non-trivial value -/
 section examples
@@ -1530,14 +2303,120 @@ example : ∃ x' v, exRot.fromVec coded [1/2, 1/2, 1/2, 1/2] = .ok x' ∧
   exact ⟨_, v, hx, h1, h2⟩
 
 /-- the heap theorem at the shallowest copy menpo has (`HomogFamilyAlignment.copy`) and the in-place
-writer `Translation._from_vector_inplace`: source and target cells are shared, the matrix cell is fresh -/
+writer `AlignmentTranslation._from_vector_inplace`: source and target cells are shared, the matrix cell is
+fresh and written, the target is rebound -/
 example : let H : Heap := ⟨fun a => if a = 0 then [1, 0, 2, 0, 1, 3, 0, 0, 1] else if a = 1 then [0, 0] else [], 4⟩
     let o : Obj := fun b => match b with | .hMatrix => 0 | .target => 1 | _ => 2
-    ∀ b, (heapUpdate [.hMatrix] (fun _ => [9]) (heapCopy (copyFresh .HomogFamilyAlignment) H o).1
-      (heapCopy (copyFresh .HomogFamilyAlignment) H o).2).cell (o b) = H.cell (o b) := by
+    let C := heapCopy (copyFresh .HomogFamilyAlignment) H o
+    let R := heapRebind [.target] (fun _ => [9]) C.1 C.2
+    ∀ b, (heapUpdate [.hMatrix] (fun _ => [9]) R.1 R.2).cell (o b) = H.cell (o b) := by
   intro H o
-  exact (from_vector_pure_heap (copyFresh .HomogFamilyAlignment) [.hMatrix] rfl H o
+  exact (from_vector_pure_heap (copyFresh .HomogFamilyAlignment) [.target] [.hMatrix] rfl H o
     (by intro b; cases b <;> decide) _).1
+
+/-- a population of two objects, each with its own seven cells: valid, and no writable buffer is shared -/
+def exWorld : World := ⟨⟨fun a => [(a : Rat)], 14⟩, fun i b => 7 * i + bufIndex b, 2⟩
+
+theorem exWorld_ok : exWorld.Valid ∧ exWorld.Owns writable := by
+  constructor
+  · intro i hi b
+    have := bufIndex_lt b
+    simp only [exWorld, nBufs] at *
+    omega
+  · intro i j hi hj b b' _ hd
+    have h1 := bufIndex_lt b
+    have h2 := bufIndex_lt b'
+    simp only [exWorld, nBufs] at *
+    rcases hd with hd | hd
+    · omega
+    · have : bufIndex b ≠ bufIndex b' := fun e => hd (bufIndex_inj b b' e)
+      omega
+
+/-- object 0 an AlignmentTranslation, object 1 a MaskedImage: `from_vector` on 0, `from_vector_inplace` on the
+result (object 2, which shares source and target cells with 0), `from_vector_inplace` on the image, then
+`from_vector` on the updated result — object 0 still holds what it held -/
+example : ∀ b, (exWorld.run ([(rowOf .AlignmentTranslation, 0, false, fun _ => [5]),
+      (rowOf .AlignmentTranslation, 2, true, fun _ => [6]), (rowOf .MaskedImage, 1, true, fun _ => [7]),
+      (rowOf .AlignmentTranslation, 2, false, fun _ => [8])].map Call.step)).val 0 b = exWorld.val 0 b :=
+  (from_vector_inplace_local exWorld exWorld_ok.1 exWorld_ok.2 _
+    (by intro c hc; simp only [List.mem_cons, List.not_mem_nil, or_false] at hc
+        rcases hc with rfl | rfl | rfl | rfl <;> decide) 0 (by decide)
+    (by intro c hc hi; simp only [List.mem_cons, List.not_mem_nil, or_false] at hc
+        rcases hc with rfl | rfl | rfl | rfl <;> simp_all)).1
+example : ∀ i, i < exWorld.n → ∀ b, (exWorld.run ([(rowOf .TexturedTriMesh, 0, false, fun _ => [5]),
+      (rowOf .AlignmentRotation, 1, false, fun _ => [6]), (rowOf .TexturedTriMesh, 2, false, fun _ => [7])].map
+      Call.step)).val i b = exWorld.val i b :=
+  fun i hi b => ((from_vector_program_pure exWorld exWorld_ok.1 _
+    (by intro c hc; simp only [List.mem_cons, List.not_mem_nil, or_false] at hc
+        rcases hc with rfl | rfl | rfl <;> exact ⟨by decide, rfl⟩)).1 i hi).2 b
+/-- the in-place update of an AlignmentTranslation: matrix written, target rebound, source untouched -/
+example : (exWorld.exec (stepOfRow (rowOf .AlignmentTranslation) 0 true (fun _ => [9]))).val 0 .hMatrix = [9] ∧
+    (exWorld.exec (stepOfRow (rowOf .AlignmentTranslation) 0 true (fun _ => [9]))).val 0 .target = [9] ∧
+    (exWorld.exec (stepOfRow (rowOf .AlignmentTranslation) 0 true (fun _ => [9]))).val 0 .source = exWorld.val 0 .source := by
+  refine ⟨?_, ?_, ?_⟩ <;>
+    (rw [from_vector_inplace_effect exWorld exWorld_ok.1 exWorld_ok.2 _ (by decide) 0 (by decide)]; rfl)
+
+/-- images of one, two (degenerate 1×5) and three dimensions: the theorems do not care about `shape` -/
+def exImg1 : Img := ⟨.Image, [5], [[1, 2, 3, 4, 5], [6, 7, 8, 9, 10]], [], [(0, [2])]⟩
+def exImg3 : Img := ⟨.Image, [2, 1, 2], [[1, 2, 3, 4]], [], []⟩
+example : exImg1.fromVec exImg1.asVec = .ok exImg1 ∧ exImg1.nParams = 10 := by
+  obtain ⟨x', h1, _, _, _, _, _, _, h2⟩ := img_from_as exImg1 rfl (by decide) (by decide)
+  rw [h2 (by decide)] at h1
+  exact ⟨h1, by decide⟩
+example : exImg3.fromVec exImg3.asVec = .ok exImg3 := by
+  obtain ⟨x', h1, _, _, _, _, _, _, h2⟩ := img_from_as exImg3 rfl (by decide) (by decide)
+  rw [h2 (by decide)] at h1
+  exact h1
+def exBoolFalse : Img := ⟨.BooleanImage, [1, 3], [[0, 0, 0]], [], []⟩
+example : exBoolFalse.fromVec exBoolFalse.asVec = .ok exBoolFalse := by
+  obtain ⟨x', h1, _, _, _, _, _, _, h2⟩ := img_from_as exBoolFalse rfl (by decide +kernel) (by decide)
+  rw [h2 (by decide)] at h1
+  exact h1
+def exMaskedNone : Img := ⟨.MaskedImage, [2, 2], [[1, 2, 3, 4], [5, 6, 7, 8]], [false, false, false, false], [(0, [1, 1])]⟩
+example : exMaskedNone.nParams = 0 ∧ ∃ x', exMaskedNone.fromVec [] = .ok x' ∧
+    x'.chans = [[0, 0, 0, 0], [0, 0, 0, 0]] ∧ x'.asVec = [] := by
+  obtain ⟨h0, _, x', h1, _, _, _, _, h2, h3⟩ := masked_all_false exMaskedNone rfl (by decide) (by decide) (by decide) rfl
+  exact ⟨h0, x', h1, h2, h3⟩
+/-- in place the pixels outside the mask survive, through `from_vector` they are zero -/
+def exMaskedIn : Img := ⟨.MaskedImage, [2, 2], [[9, 2, 3, 8], [7, 6, 7, 6]], [true, false, false, true], [(0, [1, 1])]⟩
+example : exMasked.fvi [9, 8, 7, 6] = .ok exMaskedIn := by decide +kernel
+example : exMaskedIn.asVec = [9, 8, 7, 6] :=
+  img_fvi_as_from exMasked exMaskedIn [9, 8, 7, 6] rfl (by decide) (by decide) (by decide +kernel)
+example : (exMaskedIn.chans[1]?).bind (fun ch => ch[2]?) = some 7 :=
+  (masked_fvi_keeps_outside exMasked exMaskedIn [9, 8, 7, 6] rfl (by decide) (by decide) (by decide)
+    (by decide +kernel) 2 (by decide) 1).trans (by decide +kernel)
+example : exMesh.fromVec coded [5, 5, 6, 5, 5, 6, 7, 7] ≠ exMesh.fvi coded [5, 5, 6, 5, 5, 6, 7, 7] := by decide +kernel
+example : exMesh.fromVec fixed [5, 5, 6, 5, 5, 6, 7, 7] = exMesh.fvi fixed [5, 5, 6, 5, 5, 6, 7, 7] :=
+  shape_inplace_agrees fixed exMesh _ rfl (Or.inl rfl)
+def exSim3 : Xf := ⟨.AlignmentSimilarity, [[2, 0, 0, 1], [0, 2, 0, 1], [0, 0, 2, 1], [0, 0, 0, 1]],
+  [[0, 0, 0], [1, 0, 0]], [[1, 1, 1], [3, 1, 1]]⟩
+example : exSim3.nParams = .error .notImpl ∧ exSim3.fromVec coded [1, 2, 3, 4, 5, 6, 7] = .error .notImpl := by
+  obtain ⟨_, h2, h3, _⟩ := similarity3d_not_vectorizable coded (fun _ => []) exSim3 [1, 2, 3, 4, 5, 6, 7]
+    (Or.inr rfl) (by decide +kernel) rfl
+  exact ⟨h2, h3 rfl⟩
+def exRot2 : Xf := ⟨.Rotation, [[0, -1, 0], [1, 0, 0], [0, 0, 1]], [], []⟩
+example : exRot2.fromVec fixed [1, 0, 0, 0] = .error .notImpl :=
+  (rotation2d_not_vectorizable fixed (fun _ => []) exRot2 [1, 0, 0, 0] (Or.inl rfl) (by decide +kernel) rfl).2.2
+example : EighContract (fun _ => [2/7, 3/7, 6/7, 0]) (Kq 0 (2/7) (3/7) (6/7)) 1 (2/7) (3/7) (6/7) 0 :=
+  eigh_contract_satisfiable 0 (2/7) (3/7) (6/7) (by norm_num)
+
+/-- `from_vector(v, n_channels=3)` on a two-channel masked image: three channels, same mask, and `v` comes back -/
+example : ∃ x', exMasked.fromVecN 3 [1, 2, 3, 4, 5, 6] = .ok x' ∧ x'.nCh = 3 ∧ x'.mask = exMasked.mask ∧
+    x'.asVec = [1, 2, 3, 4, 5, 6] ∧ x'.chans = [[1, 0, 0, 2], [3, 0, 0, 4], [5, 0, 0, 6]] := by
+  have h : exMasked.fromVecN 3 [1, 2, 3, 4, 5, 6] =
+      .ok ⟨.MaskedImage, [2, 2], [[1, 0, 0, 2], [3, 0, 0, 4], [5, 0, 0, 6]], [true, false, false, true], [(0, [1, 1])]⟩ := by
+    decide +kernel
+  obtain ⟨_, h2, _, _, h5, _, h7⟩ := fromVecN_spec exMasked _ 3 _ (Or.inr rfl) (by decide) h
+  exact ⟨_, h, h2, h5, h7 (by decide), rfl⟩
+example : exMasked.asVecKeep = [[1, 4], [5, 8]] ∧ exMasked.asVecKeep.flatten = exMasked.asVec :=
+  ⟨by decide +kernel, (asVecKeep_flatten exMasked rfl).1⟩
+
+example : ∃ x', exAlign.fromVec fixed [7, 8] = .ok x' :=
+  xf_right_length_accepted fixed exAlign [7, 8] rfl (by decide +kernel) (by decide +kernel)
+example : ∃ x', exMasked.fromVec [4, 3, 2, 1] = .ok x' :=
+  img_right_length_accepted exMasked [4, 3, 2, 1] rfl (by decide) (by decide) (by decide)
+example : ∃ s', exMesh.fromVec coded [1, 2, 3, 4, 5, 6, 7, 8] = .ok s' :=
+  shape_right_length_accepted coded exMesh _ rfl (by decide) (by decide)
 
 end examples
 
